@@ -160,9 +160,11 @@ func (p *Processor) ChargingDataCreate(
 		return nil, "", problemDetails
 	}
 
-	if !chargingData.OneTimeEvent && strings.Contains(chargingData.NfConsumerIdentification.NFName, "/") {
+	if !chargingData.OneTimeEvent && (strings.Contains(chargingData.NfConsumerIdentification.NFName, "/") ||
+		strings.ContainsFunc(chargingData.NfConsumerIdentification.NFName, chf_context.IsControlCharacter)) {
 		// the session reference is built from the consumer's name and is the last element of the session's resource
-		// URI: with a path separator in it no update or release could ever name the session
+		// URI: with a path separator in it no update or release could ever name the session, and with a control
+		// character the Location header that hands it to the consumer cannot carry it
 		logger.ChargingdataPostLog.Errorf("nFName %q cannot be part of a charging session reference",
 			chargingData.NfConsumerIdentification.NFName)
 		problemDetails := &models.ProblemDetails{
